@@ -230,7 +230,7 @@ static int run_case(const bc_t *c, char *human, char *what)
         int same = c->al >= 3;
         ea = get_el(UK_U, c->d1, c->i1);
         eb = same ? ea : get_el(UK_U, c->d2, c->i2);
-        snprintf(g_cls, sizeof(g_cls), "class=%s-x-%s", ea->cls, eb->cls);
+        snprintf(g_cls, sizeof(g_cls), "signs=%d%d|alias=%d", c->s1, same ? c->s1 : c->s2, c->al);
         HUM("%s %s%s[%d digits] , %s%s[%d digits] alias=%d variant=%d", opname[c->op], c->s1 ? "-" : "", ea->cls, ea->nd, (same ? c->s1 : c->s2) ? "-" : "",
             eb->cls, eb->nd, c->al, c->v);
         bn_signed(A, ea, c->s1);
@@ -386,7 +386,7 @@ static int run_case(const bc_t *c, char *human, char *what)
     {
         pstm_int *po;
         ea = get_el(UK_U, c->d1, c->i1);
-        snprintf(g_cls, sizeof(g_cls), "class=%s", ea->cls);
+        snprintf(g_cls, sizeof(g_cls), "sign=%d|alias=%d", c->s1, c->al);
         HUM("%s %s%s[%d digits] alias=%d variant=%d", opname[c->op], c->s1 ? "-" : "", ea->cls, ea->nd, c->al, c->v);
         bn_signed(A, ea, c->s1);
         hex_bn("a", A);
@@ -717,7 +717,7 @@ static int run_case(const bc_t *c, char *human, char *what)
     case OP_2EXPT:
     {
         int bexp = c->v;
-        snprintf(g_cls, sizeof(g_cls), "class=2expt");
+        snprintf(g_cls, sizeof(g_cls), "alias=%d", c->al);
         HUM("2expt b=%d", bexp);
         mk_junk(&out, (c->al & 1) ? 40 : 1, (c->al & 1) ? 39 : 1, 1); no = 1;
         rc = pstm_2expt(&out, (int16_t) bexp);
@@ -744,7 +744,7 @@ static int run_case(const bc_t *c, char *human, char *what)
     {
         pstm_int *po;
         ea = get_el(UK_R, c->d1, c->i1); eb = get_el(UK_R, c->d2, c->i2); em = get_el(UK_M, c->d3, c->i3);
-        snprintf(g_cls, sizeof(g_cls), "mod=%s", em->cls);
+        snprintf(g_cls, sizeof(g_cls), "modulus=%s|alias=%d", BN_is_odd(em->bn) ? "odd" : "even", c->al);
         HUM("mulmod %s[%d] * %s[%d] mod %s[%d] alias=%d", ea->cls, ea->nd, eb->cls, eb->nd, em->cls, em->nd, c->al);
         hex_bn("a", ea->bn); hex_bn("b", eb->bn); hex_bn("m", em->bn);
         mk(&a, ea, 0, c->al == 1 ? 0 : 2); na = 1;
@@ -770,7 +770,7 @@ static int run_case(const bc_t *c, char *human, char *what)
         pstm_int *po;
         int inv_exists;
         ea = get_el(UK_R, c->d1, c->i1); em = get_el(UK_M, c->d3, c->i3);
-        snprintf(g_cls, sizeof(g_cls), "mod=%s", em->cls);
+        snprintf(g_cls, sizeof(g_cls), "modulus=%s|alias=%d", BN_is_odd(em->bn) ? "odd" : "even", c->al);
         HUM("invmod %s[%d] mod %s[%d] alias=%d", ea->cls, ea->nd, em->cls, em->nd, c->al);
         hex_bn("a", ea->bn); hex_bn("m", em->bn);
         if (BN_is_one(em->bn))
@@ -843,7 +843,7 @@ static int run_case(const bc_t *c, char *human, char *what)
         em = get_el(UK_M, c->d3, c->i3);
         ea = get_el(UK_R, c->d1, c->i1);
         expo_make(&ex, c->i2, em);
-        snprintf(g_cls, sizeof(g_cls), "mod=%s", em->cls);
+        snprintf(g_cls, sizeof(g_cls), "modulus=%s|alias=%d", BN_is_odd(em->bn) ? "odd" : "even", c->al);
         HUM("exptmod %s[%d] ^ %s mod %s[%d] alias=%d", ea->cls, ea->nd, expo_name[c->i2], em->cls, em->nd, c->al);
         hex_bn("g", ea->bn); hex_bn("x", ex.bn); hex_bn("p", em->bn);
         bits = BN_num_bits(em->bn);
@@ -886,7 +886,7 @@ static int run_case(const bc_t *c, char *human, char *what)
         uel_t prod;
         em = get_el(UK_M, c->d3, c->i3);
         ea = get_el(UK_R, c->d1, c->i1); eb = get_el(UK_R, c->d2, c->i2);
-        snprintf(g_cls, sizeof(g_cls), "mod=%s", em->cls);
+        snprintf(g_cls, sizeof(g_cls), "modulus=%s|alias=%d", BN_is_odd(em->bn) ? "odd" : "even", c->al);
         HUM("mont_reduce (%s[%d] * %s[%d]) / B^%d mod %s[%d] variant=%d", ea->cls, ea->nd, eb->cls, eb->nd, em->nd, em->cls, em->nd, c->v);
         if (!BN_is_odd(em->bn) || BN_is_one(em->bn) || BN_ucmp(ea->bn, em->bn) >= 0 || BN_ucmp(eb->bn, em->bn) >= 0)
         {
@@ -928,7 +928,7 @@ static int run_case(const bc_t *c, char *human, char *what)
     case OP_MNORM:
     {
         em = get_el(UK_M, c->d3, c->i3);
-        snprintf(g_cls, sizeof(g_cls), "mod=%s", em->cls);
+        snprintf(g_cls, sizeof(g_cls), "modulus=%s|alias=%d", BN_is_odd(em->bn) ? "odd" : "even", c->al);
         HUM("mont_norm B^%d mod %s[%d]", em->nd, em->cls, em->nd);
         hex_bn("m", em->bn);
         if (!BN_is_odd(em->bn) || BN_is_one(em->bn))
